@@ -4,6 +4,7 @@ import (
 	"fmt"
 	"go/ast"
 	"go/constant"
+	"go/token"
 	"go/types"
 	"math"
 	"regexp"
@@ -356,9 +357,23 @@ func extractDeferSignature(d *ssa.Defer) string {
 	return "unknown"
 }
 
+// signatureWithoutNames renders a signature by its types only. Signature.String() includes
+// the parameter names, and the call profile of a function must not change when a parameter
+// of one of its function literals is renamed.
+func signatureWithoutNames(sig *types.Signature) string {
+	strip := func(t *types.Tuple) *types.Tuple {
+		vars := make([]*types.Var, t.Len())
+		for i := range vars {
+			vars[i] = types.NewVar(token.NoPos, nil, "", t.At(i).Type())
+		}
+		return types.NewTuple(vars...)
+	}
+	return types.NewSignatureType(nil, nil, nil, strip(sig.Params()), strip(sig.Results()), sig.Variadic()).String()
+}
+
 func extractClosureSignature(v *ssa.MakeClosure) string {
 	if fn, ok := v.Fn.(*ssa.Function); ok && fn != nil {
-		return fmt.Sprintf("closure:%s", fn.Signature.String())
+		return fmt.Sprintf("closure:%s", signatureWithoutNames(fn.Signature))
 	}
 	return ""
 }
@@ -367,7 +382,7 @@ func extractFunctionSig(fn *ssa.Function) string {
 	// Fix: Detect anonymous/nested functions to provide stable signatures.
 	// This handles optimizations where simple closures become plain Functions.
 	if fn.Parent() != nil {
-		return fmt.Sprintf("closure:%s", fn.Signature.String())
+		return fmt.Sprintf("closure:%s", signatureWithoutNames(fn.Signature))
 	}
 
 	if fn.Pkg != nil {
